@@ -232,7 +232,7 @@ def cases(draw, names, nmax):
             W = draw(gen.weights_for(A, "bin", True))
             if np.array_equal(W, W.T):
                 W[0, 1] = 1.0 - W[1, 0]
-        return {"fn": name, "kind": "reject", "why": why, "W": W, "itr": draw(st.sampled_from([1, 2])), "seed": seed}
+        return {"fn": name, "kind": "reject", "why": why, "W": W, "itr": draw(st.sampled_from([0, 1, 2])), "seed": seed}
     if name == "randomize_graph_partial_und":
         from . import c01
         c = draw(c01.cases([name], nmax))
@@ -252,7 +252,32 @@ def cases(draw, names, nmax):
         c["B"] = B
         c["B_kind"] = bk
         return c
-    if directed:
+    if directed and connected and draw(st.integers(0, 3)) == 0:
+        # nearly complete digraph: a small set S of nodes that the rest reaches through a single arc (all other arcs into S removed),
+        # and a few more arcs missing -- dense, strongly connected, and one swap away from losing that
+        n = draw(st.integers(4, min(nmax, 7)))
+        A = gen.complete_adj(n).copy()
+        ssz = draw(st.integers(1, 2))
+        keep = (draw(st.integers(ssz, n - 1)), draw(st.integers(0, ssz - 1)))
+        for t in range(ssz, n):
+            for s_ in range(ssz):
+                if (t, s_) != keep:
+                    A[t, s_] = False
+        if ssz == 2 and n >= 4 and draw(st.booleans()):
+            # make the single entry arc exchangeable: its source lacks one arc inside the rest, the other node of S lacks its arc to the entry node
+            t_, s_ = keep
+            d_ = draw(st.sampled_from([v for v in range(ssz, n) if v != t_]))
+            A[t_, d_] = False
+            A[1 - s_, s_] = False
+        for _ in range(draw(st.integers(0, 2))):
+            a, b = draw(st.integers(0, n - 1)), draw(st.integers(0, n - 1))
+            if a != b and (a, b) != keep:
+                A[a, b] = False
+        if not og.is_strongly_connected(A):
+            A = gen.complete_adj(n).copy()
+            A[n - 1, 0] = False
+        fam = "dense-digraph"
+    elif directed:
         A, fam = draw(rewire.dir_adj(5, nmax, connected))
     else:
         A, fam = draw(rewire.und_adj(5, nmax, connected))
@@ -273,6 +298,11 @@ def cases(draw, names, nmax):
             D = np.zeros((n, n))
             for (i, j), v in zip(gen.pairs(n, False), vals):
                 D[i, j] = D[j, i] = v
+            if directed and draw(st.booleans()):
+                # a distance-to-diagonal matrix of a directed layout need not be symmetric
+                up = draw(st.lists(st.integers(0, 6), min_size=n * (n - 1) // 2, max_size=n * (n - 1) // 2))
+                for (i, j), v in zip(gen.pairs(n, False), up):
+                    D[j, i] = v
             case["D"] = D
             case["D_dtype"] = draw(st.sampled_from(["uint8", "float64", "int64", "uint16", "float64"]))      # distances are often stored as small integers
         else:
